@@ -29,7 +29,9 @@ for pid in ids:
         if a.returncode != 0:
             a = subprocess.run(["git", "-C", "/repo", "apply", patch], capture_output=True, text=True)
         if a.returncode != 0:
-            res[tag] = dict(applied=False, note=a.stderr[-300:]); print(tag, "patch does not apply"); subprocess.run(["git", "-C", "/repo", "checkout", "--", "."]); subprocess.run(["git","-C","/repo","reset","-q"]); continue
+            res[tag] = dict(applied=False, note=a.stderr[-300:]); print(tag, "patch does not apply")
+            # a failed 3-way attempt leaves unmerged paths: reset the index first, then the files (the other order keeps the conflict markers)
+            subprocess.run(["git", "-C", "/repo", "reset", "-q"]); subprocess.run(["git", "-C", "/repo", "checkout", "--", "."]); continue
         t0 = time.time()
         try:
             # scratch evidence/replay/run dirs: a run against a mutated tree must not touch the real ones
